@@ -34,6 +34,7 @@ def run(idx: Index, rep: Report, tier: str):
     rep.assume("kernel computation, the choice of Clifford rotations, spectra of tapered operators and the truncation bound are numerical facts and are not decided")
     check_numpy_api(idx, rep, FILES, rule="K11.numpy-api")
     check_trim_table(idx, rep)
+    check_trim_fold(idx, rep)
     check_trim_operator(idx, rep)
     check_bitflip_predicate(idx, rep)
     f = idx.function(f"{Z2T}::get_z2_taper_function.do_taper") if idx.has_function(f"{Z2T}::get_z2_taper_function.do_taper") else None
@@ -67,6 +68,10 @@ def _gate_variants(name: str, flip_checked: bool) -> List[Tuple[str, sp.Matrix]]
         if flip_checked:
             return [("RY(pi)", symx.RY(sp.pi)), ("RY(3pi)", symx.RY(3 * sp.pi))]
         return [("RY(theta)", symx.RY(th))]
+    if name in ("H", "S", "T", "SDAG", "TDAG"):
+        return [(name, symx.gate_matrix(name))]
+    if name == "PHASE":
+        return [("PHASE(theta)", symx.PHASE(th))]
     raise AnalysisError(f"trim table: gate name {name} not modelled")
 
 
@@ -131,56 +136,232 @@ def check_trim_table(idx: Index, rep: Report):
                    f"{', flips checked' if cons.get('flip0') or cons.get('flip1') else ''} => |{state}>  ({n_combo} combinations)",
                    what=f"every gate sequence admitted by this branch leaves the qubit in |{state}> up to a phase",
                    reason=f"branch declares |{state}> but: {bad[:2]}")
-    # idle qubits (no gate at all) are declared |0>
-    idle = [n for n in own_nodes(f.node) if isinstance(n, ast.For) and "set(range(circuit.width)) - used_qubits" in norm(n.iter)]
-    ok = bool(idle) and any(isinstance(s, ast.Assign) and norm(s.targets[0]) == "trim_states[qubit_idx]" and norm(s.value) == "0" for s in idle[0].body)
-    rep.decide(ok, rule, f, idle[0] if idle else f.node, text="qubits without any gate => |0>", what="a qubit no gate acts on stays in |0>", reason="idle-qubit rule changed")
-    # components that are not single-qubit circuits of 1-2 gates are kept
-    keep = [n for n in ast.walk(loops[0]) if isinstance(n, ast.If) and norm(n.test) == "circ_width != 1 or circ.size not in (1, 2)"]
-    ok = bool(keep) and "circuit_new += circ" in full(keep[0]) and any(isinstance(s, ast.Continue) for s in keep[0].body)
-    rep.decide(ok, rule, f, keep[0] if keep else f.node, text="anything but a single-qubit component of one or two gates is kept", what="only components the table can classify are removed",
-               reason="keep rule changed")
+
+
+class _Comp:
+    """checker-side stand-in for one component of Circuit.split(): gates, size, the qubits it acts on"""
+    _sa_model = True
+
+    def __init__(self, gates, qubits):
+        self._gates = list(gates)
+        self.size = len(self._gates)
+        self._qubit_indices = set(qubits)
+        self.width = max(qubits) + 1
+
+
+class _Acc:
+    """stand-in for the circuit the pass builds: remembers which components were added"""
+    _sa_model = True
+
+    def __init__(self):
+        self.kept = []
+
+    def __add__(self, o):
+        r = _Acc()
+        r.kept = self.kept + [o]
+        return r
+    __iadd__ = __add__
+
+    def trim_qubits(self):
+        return None
+
+
+class _Split:
+    """stand-in for the input circuit: split() and get_entangled_indices() list the same components in the same order"""
+    _sa_model = True
+
+    def __init__(self, comps, width):
+        self.comps, self.width = comps, width
+
+    def split(self, trim_qubits=True):
+        return list(self.comps)
+
+    def get_entangled_indices(self):
+        return [set(c._qubit_indices) for c in self.comps]
+
+
+def check_trim_fold(idx: Index, rep: Report):
+    """trim_trivial_circuit folded on circuits made of: idle qubits 0 and 4, a two-qubit component on (2, 3), and on qubit 1 every sequence of
+    one or two gates over 13 single-qubit gates (plus three-gate sequences).  Obligations, each decided from the folded result and the exact
+    2x2 matrices: idle qubits are trimmed in |0>; the two-qubit component and every untrimmed sequence stay in the circuit; a trimmed
+    sequence really leaves |0> in the declared basis state (up to a phase)."""
+    rule = "K9.trim-fold"
+    from ..consteval import Raised, Undecidable, make_gate
+    from ..rules.circuitsem import make_folder
+    f = idx.function(f"{TRIM}::trim_trivial_circuit")
+    th = sp.Rational(3, 10)
+    alpha = [("X", None), ("Y", None), ("Z", None), ("H", None), ("S", None), ("T", None), ("RX", sp.pi), ("RX", th), ("RY", sp.pi), ("RY", th),
+             ("RZ", sp.Rational(7, 10)), ("RZ", sp.pi), ("PHASE", sp.Rational(2, 5))]
+
+    def mk(nm, par, q):
+        return make_gate([nm, [q]], {"parameter": float(par) if par is not None else ""})
+
+    seqs = [[a] for a in alpha] + [[a, b] for a in alpha for b in alpha] + [[("Z", None), ("Z", None), ("Z", None)], [("X", None), ("Z", None), ("X", None)]]
+    ket0 = sp.Matrix([1, 0])
+    two = _Comp([make_gate(["CNOT", [3]], {"control": [2]})], (2, 3))
+    n_trim = n_keep = 0
+    for seq in seqs:
+        comp = _Comp([mk(nm, par, 1) for nm, par in seq], (1,))
+        # components in an order that differs from the qubit order, as split() may deliver them
+        circ = _Split([two, comp], 5)
+        fo = make_folder(idx, TRIM, ctors={"Circuit": lambda args, kwargs: _Acc()})
+        fo.env["np.pi"] = float(sp.pi)
+        label = " then ".join(nm + (f"({par})" if par is not None else "") for nm, par in seq)
+        try:
+            got = fo.run_function(f.node, {"circuit": circ})
+        except (Undecidable, Raised) as e:
+            raise AnalysisError(f"trim_trivial_circuit not foldable for {label}: {e}")
+        if not (isinstance(got, tuple) and len(got) == 2 and isinstance(got[0], _Acc) and isinstance(got[1], dict)):
+            raise AnalysisError(f"trim_trivial_circuit folded to {got!r}")
+        acc, states = got
+        bad = []
+        if states.get(0) != 0 or states.get(4) != 0:
+            bad.append(f"idle qubits 0 and 4 reported as {states.get(0)!r}, {states.get(4)!r} instead of 0, 0")
+        if two not in acc.kept or 2 in states or 3 in states:
+            bad.append("the two-qubit component was not kept")
+        if 1 in states:
+            n_trim += 1
+            vec = ket0
+            for nm, par in seq:
+                vec = symx.gate_matrix(nm, par) * vec
+            vec = sp.simplify(vec)
+            if states[1] not in (0, 1) or not _state_is(vec, states[1]):
+                bad.append(f"qubit 1 is declared |{states[1]}> but {label} leaves it in {list(vec)}")
+            if comp in acc.kept:
+                bad.append("the component is both trimmed and kept")
+        else:
+            n_keep += 1
+            if comp not in acc.kept:
+                bad.append(f"{label} is neither trimmed nor kept: its gates are lost")
+        if list(states.keys()) != sorted(states.keys()):
+            bad.append(f"states handed over in the order {list(states.keys())}")
+        rep.decide(not bad, rule, f, f.node, text=f"qubit 1: {label}",
+                   what="idle qubits are trimmed in |0>; a trimmed gate sequence really leaves the declared basis state; everything else stays in the circuit",
+                   reason="; ".join(bad))
+    rep.floor("trim folds with a trimmed qubit", n_trim, 10)
+    rep.floor("trim folds with a kept component", n_keep, 100)
+    rep.assume("Circuit.split() and Circuit.get_entangled_indices() list the components in the same order (C09 decides split itself)")
 
 
 def check_bitflip_predicate(idx: Index, rep: Report):
+    """is_bitflip_gate folded on gates of every single-qubit name with angles on and off the odd multiples of pi"""
     rule = "K9.trim-table"
+    import math
+    from ..consteval import Folder, Raised, Rec, Undecidable, make_gate
     f = idx.function(f"{TRIM}::is_bitflip_gate")
-    rets = [n for n in own_nodes(f.node) if isinstance(n, ast.Return) and "parameter_float" in norm(n.value)]
-    ok = False
-    if rets:
-        t = norm(rets[0].value).replace(" ", "")
-        ok = t in ("abs(parameter_float%(np.pi*2)-np.pi)<=atol", "abs(parameter_float%(2*np.pi)-np.pi)<=atol")
-    rep.decide(ok, rule, f, rets[0] if rets else f.node, text="rotation is a flip iff angle = pi (mod 2 pi) within tolerance", what="RX/RY flip the qubit exactly at odd multiples of pi",
-               reason=f"predicate {norm(rets[0].value) if rets else '?'}")
-    names = [const_str_set(n.comparators[0]) for n in own_nodes(f.node) if isinstance(n, ast.Compare) and norm(n.left) == "gate.name" and isinstance(n.ops[0], ast.In)]
-    ok = names == [frozenset({"X", "Y"}), frozenset({"RX", "RY"})]
-    rep.decide(ok, rule, f, f.node, text="flip gates: X, Y always; RX, RY at odd multiples of pi", what="only X/Y-type gates can flip a basis state", reason=f"name sets {names}")
+    pi = math.pi
+    cases = [("X", "", True), ("Y", "", True), ("Z", "", False), ("H", "", False), ("S", "", False), ("T", "", False),
+             ("RZ", pi, False), ("PHASE", pi, False)]
+    for nm in ("RX", "RY"):
+        cases += [(nm, pi, True), (nm, -pi, True), (nm, 3 * pi, True), (nm, -5 * pi, True), (nm, pi + 1e-7, True), (nm, pi - 1e-7, True),
+                  (nm, 0.0, False), (nm, 2 * pi, False), (nm, pi / 2, False), (nm, -pi / 2, False), (nm, pi + 1e-3, False), (nm, 4 * pi, False), (nm, "theta", False)]
+    n = 0
+    for nm, par, want in cases:
+        fo = Folder(env={"np.pi": pi})
+        try:
+            got = fo.run_function(f.node, {"gate": make_gate([nm, [0]], {"parameter": par}), "atol": 1e-5})
+        except (Undecidable, Raised) as e:
+            raise AnalysisError(f"is_bitflip_gate not foldable for {nm}({par}): {e}")
+        n += 1
+        rep.decide(bool(got) == want, rule, f, f.node, text=f"is_bitflip_gate({nm}{'(' + format(par, '.6g') + ')' if isinstance(par, float) else ('(' + par + ')' if par else '')}) is {want}",
+                   what="X and Y always flip a basis state; RX and RY exactly at odd multiples of pi (within the tolerance); nothing else does",
+                   reason=f"folds to {got!r}")
+    rep.floor("is_bitflip_gate cases", n, 30)
+    none = Folder().run_function(f.node, {"gate": None, "atol": 1e-5})
+    rep.decide(none is False, rule, f, f.node, text="is_bitflip_gate(None) is False", what="an absent gate is not a flip", reason=f"folds to {none!r}")
+
+
+class _QOp:
+    """checker-side stand-in for a QubitOperator: a dictionary word -> coefficient with the three operations the trimming code uses"""
+    _sa_model = True
+
+    def __init__(self, term=None, coefficient=1):
+        self.terms = {}
+        if term is not None:
+            self.terms[tuple(term)] = coefficient
+
+    def _scaled(self, k):
+        r = _QOp()
+        r.terms = {w: sp.nsimplify(k) * v if isinstance(k, float) else k * v for w, v in self.terms.items()}
+        return r
+
+    def __mul__(self, k):
+        if isinstance(k, _QOp):
+            raise TypeError("operator products are not modelled")
+        return self._scaled(k)
+    __rmul__ = __mul__
+
+    def __add__(self, o):
+        r = _QOp()
+        r.terms = dict(self.terms)
+        for w, v in o.terms.items():
+            r.terms[w] = r.terms.get(w, 0) + v
+        return r
+    __iadd__ = __add__
 
 
 def check_trim_operator(idx: Index, rep: Report):
+    """trim_trivial_operator folded on an operator holding every Pauli word of a small register with symbolic coefficients, for every set of
+    trimmed qubits and basis states: each word's coefficient must be multiplied by the product of <s|P|s> over the trimmed positions
+    (I: 1, Z: (-1)^s, X and Y: 0) and the trimmed positions removed (re-indexed) or replaced by I."""
     rule = "K9.trim-operator"
+    from ..consteval import Folder, Raised, Undecidable
+    from ..rules.circuitsem import make_folder
     f = idx.function(f"{TRIM}::trim_trivial_operator")
-    loop = [n for n in ast.walk(f.node) if isinstance(n, ast.For) and "trim_states.keys()" in norm(n.iter)]
-    if not loop:
-        raise AnalysisError("trim_trivial_operator: loop over trimmed qubits not found")
-    chain = [s for s in loop[0].body if isinstance(s, ast.If)]
-    ok = False
-    if chain:
-        c = chain[0]
-        first = norm(c.test) == "term[qubit] in {'X', 'Y'}" or norm(c.test) == "term[qubit] in {'Y', 'X'}"
-        zero = any(isinstance(s, ast.Assign) and norm(s.targets[0]) == "c[i]" and norm(s.value) == "0" for s in c.body) and any(isinstance(s, ast.Break) for s in c.body)
-        second = len(c.orelse) == 1 and isinstance(c.orelse[0], ast.If) and norm(c.orelse[0].test) == "(term[qubit], trim_states[qubit]) == ('Z', 1)" and \
-            any(isinstance(s, ast.Assign) and norm(s.targets[0]) == "c[i]" and norm(s.value) == "-1" for s in c.orelse[0].body)
-        ok = first and zero and second
-    rep.decide(ok, rule, f, chain[0] if chain else f.node, text="<0|X|0> = <1|Y|1> = 0 drops the term; <1|Z|1> = -1; <0|Z|0> = <s|I|s> = +1",
-               what="a factor on a trimmed qubit is replaced by its expectation value in the qubit's basis state", reason="coefficient rule changed")
-    t = full(f.node)
-    ok = "c = np.ones(len(trim_states))" in t and "if 0 in c: continue" in t and "np.prod(c) * coeff" in t
-    rep.decide(ok, rule, f, f.node, text="coefficient = product of the factors' expectation values * coefficient; zero products dropped", what="the new coefficient is the old one times the product of the expectation values",
-               reason="coefficient assembly changed")
-    ok = "new_term[:qubit - i] + new_term[qubit - i + 1:] if reindex else new_term[:qubit] + 'I' + new_term[qubit + 1:]" in t
-    rep.decide(ok, rule, f, f.node, text="trimmed position removed (re-indexing) or replaced by I", what="the trimmed qubit disappears from the word (positions shift down by the number of qubits already removed)",
-               reason="word update changed")
+    n_checked = 0
+    for n in (2, 3):
+        words = list(itertools.product("IXYZ", repeat=n))
+        coefs = {w: sp.Symbol("c_" + "".join(w)) for w in words}
+        op = _QOp()
+        for w in words:
+            op.terms[tuple((i, p) for i, p in enumerate(w) if p != "I")] = coefs[w]
+        for k in range(1, n + 1):
+            for qs in itertools.combinations(range(n), k):
+                for states in itertools.product((0, 1), repeat=k):
+                    trim = dict(zip(qs, states))
+                    for reindex in (True, False):
+                        want: Dict[tuple, sp.Expr] = {}
+                        for w in words:
+                            fac = 1
+                            for q, st in trim.items():
+                                fac *= {"I": 1, "Z": (-1) ** st, "X": 0, "Y": 0}[w[q]]
+                            if fac == 0:
+                                continue
+                            if reindex:
+                                nw = [p for i, p in enumerate(w) if i not in trim]
+                            else:
+                                nw = [("I" if i in trim else p) for i, p in enumerate(w)]
+                            key = tuple((i, p) for i, p in enumerate(nw) if p != "I")
+                            want[key] = want.get(key, 0) + fac * coefs[w]
+                        fo = make_folder(idx, TRIM, ctors={"QubitOperator": lambda args, kwargs: _QOp(*args, **kwargs)})
+                        try:
+                            got = fo.run_function(f.node, {"qu_op": op, "trim_states": dict(trim), "n_qubits": n, "reindex": reindex})
+                        except (Undecidable, Raised) as e:
+                            raise AnalysisError(f"trim_trivial_operator not foldable for trim_states={trim}, reindex={reindex}: {e}")
+                        if not isinstance(got, _QOp):
+                            raise AnalysisError(f"trim_trivial_operator folded to {got!r}")
+                        gt = {w: sp.nsimplify(sp.expand(v)) for w, v in got.terms.items() if sp.expand(v) != 0}
+                        wt = {w: sp.expand(v) for w, v in want.items() if sp.expand(v) != 0}
+                        bad = [w for w in set(gt) | set(wt) if sp.simplify(gt.get(w, 0) - wt.get(w, 0)) != 0]
+                        n_checked += 1
+                        rep.decide(not bad, rule, f, f.node, text=f"{n} qubits, trimmed {trim}, reindex={reindex}: all {len(words)} words",
+                                   what="each word's coefficient is multiplied by the product of the trimmed factors' expectation values in the qubits' basis states "
+                                        "(I: 1, Z: +1/-1, X, Y: 0) and the trimmed positions are removed (re-indexed) or replaced by I",
+                                   reason=f"word {bad[0] if bad else ''}: coefficient {gt.get(bad[0], 0) if bad else ''}, expected {wt.get(bad[0], 0) if bad else ''}")
+    rep.floor("trim_trivial_operator folds", n_checked, 60)
+    # the re-indexing counts the qubits already removed: it needs the trimmed qubits in ascending order, which the circuit pass must deliver
+    h = idx.function(f"{TRIM}::trim_trivial_circuit")
+    rets = [r for r in own_nodes(h.node) if isinstance(r, ast.Return)]
+    if not rets or not isinstance(rets[-1].value, ast.Tuple) or len(rets[-1].value.elts) != 2:
+        raise AnalysisError("trim_trivial_circuit: return of (circuit, states) not found")
+    try:
+        got = Folder(env={"trim_states": {2: 0, 0: 1, 3: 1, 1: 0}}).expr(rets[-1].value.elts[1])
+        keys = list(got.keys()) if isinstance(got, dict) else None
+    except (Undecidable, Raised) as e:
+        keys = None
+    rep.decide(keys == [0, 1, 2, 3], rule, h, rets[-1], text="trimmed qubits are handed over in ascending order",
+               what="the states dictionary iterates in ascending qubit order (the operator pass shifts positions by the count of qubits already removed)",
+               reason=f"for states found in the order 2, 0, 3, 1 the returned dictionary iterates as {keys}")
     g = idx.function(f"{TRIM}::trim_trivial_qubits")
     t = full(g.node)
     ok = "trimmed_circuit, trim_states = trim_trivial_circuit(circuit)" in t and "trim_trivial_operator(operator, trim_states, circuit.width, reindex=True)" in t
